@@ -306,3 +306,10 @@ func (c *Ctx) baselineName(fn *ssa.Function) string {
 	}
 	return ""
 }
+
+// stableGlobalName: the name of a package-level variable as the rules know it. (Atom globals that were renamed are
+// re-identified by their interned text; here the two tables of a rule only have to use the SAME name for the same
+// variable, so the current name will do.)
+func (c *Ctx) stableGlobalName(g *ssa.Global) string {
+	return g.Name()
+}
